@@ -320,7 +320,11 @@ func execRd(x *fw.Ctx, c *Case) {
 	case "undocumented":
 		x.Fail(fmt.Sprintf("not-a-condition read lead=%s%s", leadStr(lead), ambsig), "reading %s (via %s)%s => signalled a non-condition: %v %s", quoteBytes(src), via, ambText(c.Amb), oc.err.Chain, oc.err.Msg)
 	}
-	if allocBudget+uint64(64*len(src)) < used {
+	// cumulative allocation: math/big parses a token of n digits with O(n^2) bytes of
+	// short-lived garbage (1 MiB of digits: 5.5 GiB allocated, 200 MiB resident), which is
+	// bounded and proportional to the work; the budget has a quadratic term that only
+	// matters for inputs beyond 64 KiB. The 3 GiB address-space cap bounds the peak.
+	if allocBudget+uint64(64*len(src))+uint64(len(src))*uint64(len(src))/128 < used {
 		x.Fail(fmt.Sprintf("alloc read lead=%s%s", leadStr(lead), map[bool]string{true: " amb=" + c.Amb, false: ""}[c.Amb != ""]), "reading %s (via %s)%s => allocated %d MiB", quoteBytes(src), via, ambText(c.Amb), used>>20)
 	}
 	afterCase(x, c)
